@@ -60,6 +60,8 @@ func runC04(c *Ctx) {
 				t1 := time.Now()
 				pm := callAllMethods(res.Val)
 				c.Check("accessors_return_normally", pm == "", p.Name, args, "", pm)
+				pf := callValueFuncs(res.Val)
+				c.Check("accessors_return_normally", pf == "", p.Name, args, "", pf)
 				c.Check("accessors_time_bounded", time.Since(t1) < deadline, p.Name, args, "", "accessors slow")
 			}
 		})
@@ -67,6 +69,92 @@ func runC04(c *Ctx) {
 	c04Codes(c)
 	c04KeyConstructors(c)
 	c04EveryByteFunction(c)
+	c04SmallCertificates(c)
+}
+
+// callValueFuncs: every exported package-level function that takes a library value (or a pointer to
+// one) as its first argument — the list is regenerated from the source by the translator — is
+// called with v when v is of that type; reports the first that panics
+func callValueFuncs(v interface{}) (panicked string) {
+	if v == nil {
+		return ""
+	}
+	rv := reflect.ValueOf(v)
+	cands := []reflect.Value{rv}
+	if rv.Kind() == reflect.Ptr && !rv.IsNil() {
+		cands = append(cands, rv.Elem())
+		// embedded / nested library values one level down (a Destination's KeysAndCert, ...)
+		if rv.Elem().Kind() == reflect.Struct {
+			for i := 0; i < rv.Elem().NumField(); i++ {
+				f := rv.Elem().Field(i)
+				if !f.CanInterface() {
+					continue
+				}
+				if f.Kind() == reflect.Ptr && !f.IsNil() {
+					cands = append(cands, f, f.Elem())
+				} else if f.Kind() == reflect.Struct {
+					cands = append(cands, f)
+				}
+			}
+		}
+	} else if rv.Kind() != reflect.Ptr {
+		pv := reflect.New(rv.Type())
+		pv.Elem().Set(rv)
+		cands = append(cands, pv)
+	}
+	names := make([]string, 0, len(apiValueFuncs))
+	for name := range apiValueFuncs {
+		names = append(names, name)
+	}
+	sort.Strings(names)
+	for _, name := range names {
+		f := apiValueFuncs[name]
+		for _, cv := range cands {
+			if !cv.IsValid() || !cv.CanInterface() || cv.Type().String() != f.Arg {
+				continue
+			}
+			func() {
+				defer func() {
+					if r := recover(); r != nil && panicked == "" {
+						panicked = fmt.Sprintf("%s(%s): %v", name, f.Arg, r)
+					}
+				}()
+				f.Call(cv.Interface(), 7)
+			}()
+			break
+		}
+	}
+	return
+}
+
+// c04SmallCertificates: every certificate type 0..6 x declared payload length 0..8 x 0..8 bytes
+// following the certificate in its input (a certificate keeps what follows it within reach): the
+// reader, every method of what it returns and every exported function taking a certificate
+func c04SmallCertificates(c *Ctx) {
+	var certParser *Parser
+	for i := range parsers {
+		if parsers[i].Name == "ReadCertificate" {
+			certParser = &parsers[i]
+		}
+	}
+	if certParser == nil {
+		return
+	}
+	for t := 0; t <= 6; t++ {
+		for decl := 0; decl <= 8; decl++ {
+			for have := 0; have <= 8; have++ {
+				in := append([]byte{byte(t), 0, byte(decl)}, c.R.Bytes(have)...)
+				res := runParser(c, certParser, in, nil)
+				c.Check("parser_returns_normally", res.Obs.Status != "panic", "ReadCertificate", [][]byte{in}, "", "parser panicked")
+				if res.OK {
+					pm := callAllMethods(res.Val)
+					c.Check("accessors_return_normally", pm == "", "ReadCertificate", [][]byte{in}, "", pm)
+					pf := callValueFuncs(res.Val)
+					c.Check("accessors_return_normally", pf == "", "ReadCertificate", [][]byte{in}, "", pf)
+				}
+			}
+		}
+	}
 }
 
 // c04EveryByteFunction: EVERY exported function of the library that takes a byte slice (the list
